@@ -67,13 +67,14 @@ pub fn run(case: &str) -> Option<Outcome> {
             match grm(na, src) { Err(e) => out(true, e, exp), Ok(g) => { let s = g.sentence_generator(|_| 1).min_sentence(RIdx(u32::from(g.rule_idx("A").unwrap()))); out(s.len() != 1, format!("{} tokens", s.len()), exp) } }
         }
         // C11: lexer specifications (flags in force, the escape rule, what the written regex denotes)
-        "c11_escaped_blank_under_ignore_whitespace" | "c11_hash_under_ignore_whitespace" | "c11_unbalanced_regex_is_refused" | "c11_unknown_flag_is_refused" => {
+        "c11_escaped_blank_under_ignore_whitespace" | "c11_hash_under_ignore_whitespace" | "c11_unbalanced_regex_is_refused" | "c11_unknown_flag_is_refused" | "c11_inline_x_flag_comment" => {
             use lrlex::{DefaultLexerTypes, LRNonStreamingLexerDef, LexerDef};
             use lrpar::{Lexeme, Lexer};
             let (spec, input, want, exp): (&str, &str, Result<Vec<(usize, usize)>, ()>, &str) = match case {
                 "c11_escaped_blank_under_ignore_whitespace" => ("%grmtools{ignore_whitespace}\n%%\na\\ b 'x'\n", "a b", Ok(vec![(0, 3)]), "with ignore_whitespace an escaped blank still stands for a blank: \"a b\" is one lexeme"),
                 "c11_hash_under_ignore_whitespace" => ("%grmtools{ignore_whitespace}\n%%\na#b 'x'\nc 'y'\n", "a", Ok(vec![(0, 1)]), "with ignore_whitespace `a#b` is `a` followed by a comment: the specification is accepted and \"a\" is one lexeme"),
                 "c11_unbalanced_regex_is_refused" => ("%%\na)|(b 'x'\nc 'y'\n", "cb", Err(()), "`a)|(b` is not a regular expression: the specification is refused"),
+                "c11_inline_x_flag_comment" => ("%%\n(?x)a#b 'x'\nc 'y'\n", "a", Ok(vec![(0, 1)]), "`(?x)a#b` is `a` followed by a comment (the regex crate accepts it on its own): the specification is accepted and \"a\" is one lexeme"),
                 _ => ("%grmtools{case_insensitve}\n%%\na 'x'\n", "a", Err(()), "a flag name that does not exist is refused"),
             };
             let r = catch_unwind(AssertUnwindSafe(|| {
@@ -84,6 +85,22 @@ pub fn run(case: &str) -> Option<Outcome> {
                 Ok::<_, ()>(v)
             }));
             match r { Err(_) => out(true, "panic".into(), exp), Ok(got) => out(got != want, match &got { Ok(v) => format!("accepted; {:?} lexes as (start, length) {:?}", input, v), Err(()) => "refused".to_string() }, exp) }
+        }
+        // C12: a lex specification that lifts the nesting limit and nests deeply (in a child process: the failure is a stack overflow)
+        "c12_deep_regex_with_nest_limit_lifted" => return Some(in_child("c12_deep_regex_inner", 60000, "a value or a non-empty list of located errors")),
+        "c12_deep_regex_inner" => {
+            use lrlex::{DefaultLexerTypes, LRNonStreamingLexerDef, LexerDef};
+            let exp = "a value or a non-empty list of located errors";
+            let n = 20000;
+            let spec = format!("%grmtools{{nest_limit: 4294967295}}\n%%\n{}a{} 'a'\n", "(".repeat(n), ")".repeat(n));
+            let r = catch_unwind(AssertUnwindSafe(|| LRNonStreamingLexerDef::<DefaultLexerTypes<u32>>::from_str(&spec).map(|_| ()).map_err(|e| e.len())));
+            match r { Err(_) => out(true, "panic".into(), exp), Ok(Ok(())) => out(false, "a value".into(), exp), Ok(Err(k)) => out(k == 0, format!("{} error(s)", k), exp) }
+        }
+        // C10: a comment between the type of a Grmtools rule and its colon
+        "c10_grmtools_rule_type_with_comment" => {
+            let src = "%start A\n%%\nA -> u32 /* c */ : 'a' { 1 };";
+            let exp = "the action type of A is u32";
+            match grm(YaccKind::Grmtools, src) { Err(e) => out(true, e, exp), Ok(g) => { let t = g.actiontype(g.rule_idx("A").unwrap()).clone(); out(t.as_deref() != Some("u32"), format!("actiontype is {:?}", t), exp) } }
         }
         // C20: the conflicts reported for one grammar are the same in every width
         "c20_reported_conflicts_in_every_width" => {
